@@ -1519,4 +1519,198 @@ Proof.
   - apply (PAX_info n _ _ (over_children drop_recipes s5)); [reflexivity|]. unfold over_children.
     apply PAX_over_children; [|exact P5]. intros i. cbn. auto.
 Qed.
+
+(* ---- restore_ind ---- *)
+Lemma crel_nodup s s' : crel n s s' -> NoDup (nkeys (info s)) -> NoDup (nkeys (info s')).
+Proof. intros (A&_) H. rewrite (irel_nkeys _ _ _ A). exact H. Qed.
+Lemma remove_node_nodup nd s : chok (children s) -> NoDup (nkeys (info s)) -> NoDup (nkeys (info (remove_node n nd s))).
+Proof.
+  intros Hc ND. rewrite remove_node_eq. destruct (Nat.eqb (length nd) 1).
+  { cbn [set_preproc info]. unfold clear_info. rewrite nkeys_upd. exact ND. }
+  cbn zeta. pose proof (rn_pre_crel n HN nd s Hc) as H3. set (s3 := rn_pre n nd s) in *.
+  pose proof (crel_nodup _ _ H3 ND) as ND3.
+  set (s4 := if nmem nd (children s3) then _ else set_err s3).
+  assert (E4 : info s4 = info s3) by (unfold s4; destruct (nmem nd (children s3)); reflexivity).
+  destruct (Nat.eqb (length nd) N).
+  - unfold clear_info. rewrite nkeys_upd, E4. exact ND3.
+  - destruct (nmem nd (info s4)); cbn [set_info set_err info]; rewrite E4; [apply NoDup_nkeys_ndel, ND3|exact ND3].
+Qed.
+Lemma add_node_nodup nd s : NoDup (nkeys (info s)) -> NoDup (nkeys (info (add_node nd s))).
+Proof.
+  intros ND. unfold add_node. destruct (nmem nd (info s)) eqn:E; [exact ND|]. cbn [set_info info].
+  unfold nkeys. rewrite map_app. cbn [map fst]. apply NoDup_app_intro'; [exact ND|repeat constructor; cbn; tauto|].
+  intros x Hx [<-|[]]. unfold nmem in E. destruct (nget nd (info s)) eqn:Eg; [discriminate|].
+  apply (proj1 (nget_none_notin nd (info s)) Eg). exact Hx.
+Qed.
+Lemma contract_pair_nodup x y lg c z s : chok (children s) -> x <> [] -> y <> [] -> NoDup (x ++ y) ->
+  NoDup (nkeys (info s)) -> NoDup (nkeys (info (contract_pair n x y lg c z s))).
+Proof.
+  intros Hc Hx Hy NDxy ND. rewrite contract_pair_eq.
+  destruct (cp_pre_fields x y lg c z s) as (F1&_).
+  assert (ND5 : NoDup (nkeys (info (cp_pre x y lg c z s)))).
+  { unfold cp_pre. set (s1 := add_node (nunion x y) (add_node y (add_node x s))).
+    assert (ND1 : NoDup (nkeys (info s1))) by (unfold s1; do 3 apply add_node_nodup; exact ND).
+    set (s2 := set_children _ s1). assert (ND2 : NoDup (nkeys (info s2))) by exact ND1.
+    set (s3 := match lg with Some l => _ | None => s2 end).
+    assert (ND3 : NoDup (nkeys (info s3))) by (unfold s3; destruct lg; [rewrite nkeys_upd|]; exact ND2).
+    set (s4 := match c with Some c0 => _ | None => s3 end).
+    assert (ND4 : NoDup (nkeys (info s4))) by (unfold s4; destruct c; [rewrite nkeys_upd|]; exact ND3).
+    destruct z; [rewrite nkeys_upd|]; exact ND4. }
+  apply (crel_nodup _ _ (update_tracked_crel n HN (nunion x y) _ ltac:(rewrite F1; apply chok_pair; assumption)) ND5).
+Qed.
+
+Section Restore.
+Variable slo sln : list slinfo.
+Variable ind : ix.
+Hypothesis Hdiff : forall j, j <> ind -> (In j (removed slo) <-> In j (removed sln)).
+
+Lemma leafstep_sfr s k : chok (children s) -> sfr s (leafstep n ind s k).
+Proof.
+  intros Hc. unfold leafstep. destruct (memb ind (nth k (inputs n) [])); [|apply sfr_refl].
+  assert (F : sfr s (remove_node n [k] s)).
+  { rewrite remove_node_eq. cbn [length Nat.eqb hd]. unfold clear_info.
+    destruct (upd_sfr [k] (fun _ => noinfo) s) as (F1&F2&F3). apply sfr_fields; cbn; auto. }
+  match goal with |- context [if ?b then _ else _] => destruct b end; [|exact F].
+  eapply sfr_trans; [exact F|apply sfr_fields; cbn; auto].
+Qed.
+Lemma leafstep_A T s k : PAX n (LVT slo sln ([k] :: T)) noX s -> PAX n (LVT slo sln T) noX (leafstep n ind s k).
+Proof.
+  intros HP. unfold leafstep. destruct (memb ind (nth k (inputs n) [])) eqn:Em.
+  - assert (P : PAX n (LVT slo sln T) noX (remove_node n [k] s)).
+    { rewrite remove_node_eq. cbn [length Nat.eqb hd].
+      apply (PAX_info _ _ _ (clear_info [k] s)); [reflexivity|]. intros q i Hi. unfold clear_info in Hi.
+      destruct (node_eq_dec q [k]) as [->|Hn].
+      - rewrite nget_upd_same in Hi. destruct (nget [k] (info s)); [|discriminate]. injection Hi as <-. apply entA_noinfo.
+      - rewrite nget_upd_other in Hi by exact Hn. destruct (HP q i Hi) as [A1 A2]. split; [|exact A2].
+        intros lg Hl. apply (LVT_drop slo sln q [k]); [left; exact Hn|apply A1, Hl]. }
+    match goal with |- context [if ?b then _ else _] => destruct b end; [|exact P]. apply (PAX_info _ _ _ (remove_node n [k] s)); [reflexivity|exact P].
+  - intros q i Hi. destruct (HP q i Hi) as [A1 A2]. split; [|exact A2]. intros lg Hl.
+    destruct (node_eq_dec q [k]) as [->|Hn].
+    + apply (LVT_leaf_done slo sln ind Hdiff k); [apply memb_false, Em|apply A1, Hl].
+    + apply (LVT_drop slo sln q [k]); [left; exact Hn|apply A1, Hl].
+Qed.
+Lemma leaf_fold_sfr L : forall s, chok (children s) -> sfr s (fold_left (leafstep n ind) L s).
+Proof.
+  induction L as [|k L IH]; intros s Hc; cbn [fold_left]; [apply sfr_refl|].
+  pose proof (leafstep_sfr s k Hc) as F1. eapply sfr_trans; [exact F1|]. apply IH. destruct F1 as (A&_). rewrite A. exact Hc.
+Qed.
+Lemma leaf_fold_A L : forall T s, PAX n (LVT slo sln (map (fun i => [i]) L ++ T)) noX s ->
+  PAX n (LVT slo sln T) noX (fold_left (leafstep n ind) L s).
+Proof.
+  induction L as [|k L IH]; intros T s HP; cbn [fold_left]; [exact HP|].
+  apply IH. apply leafstep_A. exact HP.
+Qed.
+
+(* what the re-creation loop keeps *)
+Definition lfr (s s' : tstate) : Prop :=
+  sliced s' = sliced s /\ chok (children s') /\ NoDup (nkeys (info s')) /\ (err s = true -> err s' = true).
+Lemma loop_body_A s p l r : sliced s = sln -> chok (children s) -> NoDup (nkeys (info s)) ->
+  l <> [] -> r <> [] -> NoDup (l ++ r) ->
+  lfr s (loop_body n ind s (p, (l, r))) /\
+  (PAX n (LVT slo sln []) noX s -> PAX n (LVT slo sln []) noX (loop_body n ind s (p, (l, r)))).
+Proof.
+  intros Esl Hc ND Hl Hr NDlr. unfold loop_body.
+  pose proof (g_legs_crel n HN s l Hc) as H1. destruct (g_legs n s l) as [sa ll]. cbn [fst] in H1.
+  set (Y := if lmem ind ll then (sa, true) else _).
+  assert (HY : crel n s (fst Y)).
+  { unfold Y. destruct (lmem ind ll); [exact H1|].
+    pose proof (g_legs_crel n HN sa r (crel_chok n _ _ H1 Hc)) as H2. destruct (g_legs n sa r) as [sb lr]. cbn [fst] in *.
+    eapply crel_trans; eassumption. }
+  destruct Y as [sb hit]. cbn [fst] in HY.
+  assert (Eslb : sliced sb = sln) by (destruct HY as (_&_&E&_); congruence).
+  assert (Hcb : chok (children sb)) by apply (crel_chok n _ _ HY Hc).
+  assert (NDb : NoDup (nkeys (info sb))) by apply (crel_nodup _ _ HY ND).
+  assert (Emb : err s = true -> err sb = true) by apply HY.
+  destruct hit.
+  2:{ split; [unfold lfr; rewrite Eslb, Esl; auto|]. intros HP. apply (PAX_crelT slo sln [] noX s sb Esl HP HY). }
+  destruct (remove_node_facts n HN p sb Hcb) as (R1&R2&R3). pose proof (remove_node_nodup p sb Hcb NDb) as R4.
+  set (sc := remove_node n p sb) in *.
+  assert (Hfr : forall q lg, fresh_ok n (sliced sb) q lg -> LVT slo sln [] q lg) by (intros q lg H; rewrite Eslb in H; left; exact H).
+  assert (Hfr' : forall q lg, fresh_ok n (sliced sc) q lg -> LVT slo sln [] q lg) by (intros q lg H; rewrite R1, Eslb in H; left; exact H).
+  assert (Ptriv : PAX n (fun _ _ => True) (fun _ => true) sc).
+  { intros q i Hi. split; [auto|intros H; discriminate]. }
+  destruct (PAX_contract_pair n HN (fun _ _ => True) (fun _ => true) l r None None None sc R2 Hl Hr NDlr) as (_&C2&C3&C4);
+    [auto|exact Ptriv|intros l0 H; discriminate|].
+  pose proof (contract_pair_nodup l r None None None sc R2 Hl Hr NDlr R4) as C5.
+  split.
+  - unfold lfr. rewrite C2, R1, Eslb, Esl. split; [reflexivity|]. split; [exact C3|]. split; [exact C5|]. auto.
+  - intros HP.
+    assert (Pb : PAX n (LVT slo sln []) noX sb) by apply (PAX_crelT slo sln [] noX s sb Esl HP HY).
+    assert (Pc : PAX n (LVT slo sln []) noX sc) by apply (PAX_remove_node n HN _ noX p sb Hcb NDb Hfr Pb).
+    apply (PAX_contract_pair n HN _ noX l r None None None sc R2 Hl Hr NDlr Hfr' Pc). intros l0 H; discriminate.
+Qed.
+Lemma loop_fold_A nodes : forall s, sliced s = sln -> chok (children s) -> NoDup (nkeys (info s)) ->
+  (forall p l r, In (p, (l, r)) nodes -> l <> [] /\ r <> [] /\ NoDup (l ++ r)) ->
+  lfr s (fold_left (loop_body n ind) nodes s) /\
+  (PAX n (LVT slo sln []) noX s -> PAX n (LVT slo sln []) noX (fold_left (loop_body n ind) nodes s)).
+Proof.
+  induction nodes as [|[p [l r]] nodes IH]; intros s Esl Hc ND Hn; cbn [fold_left].
+  { split; [unfold lfr; auto|auto]. }
+  destruct (Hn p l r (or_introl eq_refl)) as (Hl&Hr&NDlr).
+  destruct (loop_body_A s p l r Esl Hc ND Hl Hr NDlr) as [(F1&F2&F3&F4) P1].
+  destruct (IH (loop_body n ind s (p, (l, r)))) as [(G1&G2&G3&G4) P2]; [congruence|exact F2|exact F3|intros p' l' r' H'; apply (Hn p' l' r'); right; exact H'|].
+  split; [unfold lfr; split; [congruence|]; split; [exact G2|]; split; [exact G3|auto]|auto].
+Qed.
+End Restore.
+
+Lemma PAX_old_to_leaves slo sln s : InvC n s -> PAX n (fresh_ok n slo) noX s ->
+  PAX n (LVT slo sln (map (fun i => [i]) (seq 0 N) ++ [])) noX s.
+Proof.
+  intros HI HP q i Hi. destruct (HP q i Hi) as [A1 A2]. split; [|exact A2]. intros lg Hl. destruct (A1 lg Hl) as [B1 B2].
+  destruct (Nat.eq_dec (length q) 1) as [E1|E1].
+  { right. right. split; [|split; [exact E1|apply B1, E1]]. rewrite app_nil_r.
+    destruct HI as [(_&_&H3&_) _]. destruct (H3 q i Hi) as [G _]. rewrite (len1 q E1) in G |- *.
+    apply in_map_iff. exists (hd 0 q). split; [reflexivity|]. apply in_seq. pose proof (good_leaf n _ G). lia. }
+  destruct (Nat.eq_dec (length q) N) as [EN|EN]; [right; left; split; [exact EN|apply B2, EN]|].
+  left. split; intros; contradiction.
+Qed.
+
+Theorem restore_ind_A ind s : InvC n s -> rs_pre n ind s -> PAe n s -> PAe n (restore_ind n ind s).
+Proof.
+  intros HI Hpre HP He. pose proof (restore_ind_inv n HN Hout ind s HI Hpre) as IF. revert He IF.
+  destruct Hpre as (Hin & NDr & Tf & Tw & Ts & _ & _ & _ & _ & _ & _).
+  unfold restore_ind.
+  destruct (find_removed ind (sliced s) Hin NDr) as (si & Ef & Esi & HPsl). rewrite Ef.
+  set (sl := sliced s) in *. set (sl' := filter (fun x => negb (Nat.eqb (sl_ix x) ind)) sl) in *.
+  assert (Hdiff : forall j, j <> ind -> (In j (removed sl) <-> In j (removed sl'))).
+  { intros j Hj. unfold sl'. rewrite removed_filter. tauto. }
+  set (s1 := set_sliced sl' s).
+  rewrite (contract_stats_id n s1) by assumption.
+  set (s3 := set_mult (mult s1 / sl_size n si)%Z s1).
+  change (fold_left _ (seq 0 N) s3) with (fold_left (leafstep n ind) (seq 0 N) s3).
+  pose proof (InvC_chok s HI) as Hc.
+  assert (Hc3 : chok (children s3)) by exact Hc.
+  pose proof (leaf_fold_sfr ind (seq 0 N) s3 Hc3) as F4.
+  set (s4 := fold_left (leafstep n ind) (seq 0 N) s3) in *.
+  destruct (traverse n s4) as [nodes|] eqn:Et; [|intros He; discriminate].
+  change (fold_left _ nodes s4) with (fold_left (loop_body n ind) nodes s4).
+  assert (Esl4 : sliced s4 = sl') by (destruct F4 as (_&E&_); rewrite E; reflexivity).
+  assert (Hc4 : chok (children s4)) by (destruct F4 as (E&_); rewrite E; exact Hc3).
+  assert (ND4 : NoDup (nkeys (info s4))).
+  { (* the leaf phase only clears entries *)
+    assert (Hk : forall L s0, nkeys (info (fold_left (leafstep n ind) L s0)) = nkeys (info s0)).
+    { induction L as [|k L IHL]; intros s0; cbn [fold_left]; [reflexivity|]. rewrite IHL. unfold leafstep.
+      destruct (memb ind (nth k (inputs n) [])); [|reflexivity].
+      assert (E : nkeys (info (remove_node n [k] s0)) = nkeys (info s0)).
+      { rewrite remove_node_eq. cbn [length Nat.eqb hd set_preproc info]. unfold clear_info. apply nkeys_upd. }
+      match goal with |- context [if ?b then _ else _] => destruct b end; exact E. }
+    unfold s4. rewrite Hk. apply HI. }
+  assert (Hnodes : forall p l r, In (p, (l, r)) nodes -> l <> [] /\ r <> [] /\ NoDup (l ++ r)).
+  { intros p l r Hin'. pose proof (traverse_entries n s4 nodes Et _ Hin') as E. cbn [fst snd] in E.
+    destruct (Hc4 p l r (nget_In _ _ _ E)) as (A&B&C&_). auto. }
+  destruct (loop_fold_A sl sl' ind nodes s4 Esl4 Hc4 ND4 Hnodes) as [(G1&G2&G3&G4) P5].
+  set (s5 := fold_left (loop_body n ind) nodes s4) in *.
+  intros He IF.
+  assert (He5 : err s5 = false) by (destruct (err s5) eqn:E; [rewrite (reset_recipes_err s5 E) in He; discriminate|reflexivity]).
+  assert (He4 : err s4 = false) by (destruct (err s4) eqn:E; [rewrite (G4 eq_refl) in He5; discriminate|reflexivity]).
+  assert (He0 : err s = false) by (apply (sfr_err s3 s4 F4 He4)).
+  assert (P3 : PAX n (LVT sl sl' (map (fun i => [i]) (seq 0 N) ++ [])) noX s3).
+  { apply (PAX_info n _ _ s s3 eq_refl). apply PAX_old_to_leaves; [exact HI|apply HP, He0]. }
+  pose proof (leaf_fold_A sl sl' ind Hdiff (seq 0 N) [] s3 P3) as P4. fold s4 in P4.
+  specialize (P5 P4).
+  apply (PAX_repair sl sl' ind); [exact Hdiff|exact IF| |].
+  - unfold reset_recipes. cbn [set_cores sliced]. destruct (over_children_fields drop_recipes s5) as (_&E&_). rewrite E. congruence.
+  - apply (PAX_info n _ _ (over_children drop_recipes s5)); [reflexivity|]. unfold over_children.
+    apply PAX_over_children; [|exact P5]. intros i. cbn. auto.
+Qed.
 End InvA2.
